@@ -938,7 +938,7 @@ class Exec:
                            pats=lambda i: [en[i]]))
             self.assume(FA([sort_of(v.kind)], lambda y: Implies(v.mem[y], And(0 <= pos[y], pos[y] < n,
                                                                                 en[pos[y]] == y)),
-                           pats=lambda y: [pos[y]]))
+                           pats=lambda y: [pos[y], v.mem[y]]))
             lst = VList(n, lambda i: VZ(en[i], v.kind))
             lst.pos = pos
             lst.from_set = v
